@@ -246,6 +246,13 @@ func (w *LWorld) genFile(r *core.PRNG, p *LPkg, lf *LFile, fidx, ver int, deps [
 			continue
 		}
 		q := w.Pkgs[j]
+		if r.Chance(1, 8) {
+			// a blank import: the package is initialised, nothing of it is used here
+			lines = append(lines, fmt.Sprintf("import ( _ %q )", q.Path))
+			depAlias[j] = ""
+			fv.Imports = append(fv.Imports, q.Path)
+			continue
+		}
 		if r.Chance(1, 4) {
 			a := fmt.Sprintf("al%d", j)
 			lines = append(lines, fmt.Sprintf("import ( %s %q )", a, q.Path)) // goatlang accepts an alias only in the block form
@@ -290,6 +297,9 @@ func (w *LWorld) genFile(r *core.PRNG, p *LPkg, lf *LFile, fidx, ver int, deps [
 	}
 	sort.Ints(keys)
 	for _, j := range keys {
+		if depAlias[j] == "" {
+			continue
+		}
 		body = append(body, fmt.Sprintf("var u%d_%d = %s.Use%d()", fidx, j, depAlias[j], j))
 	}
 	ninit := r.Intn(3)
@@ -331,6 +341,10 @@ func (w *LWorld) genFile(r *core.PRNG, p *LPkg, lf *LFile, fidx, ver int, deps [
 		body = append(fn, rest...)
 	}
 	lines = append(lines, body...)
+	if decoy && r.Chance(1, 2) {
+		// excluded files are Go for other tools or platforms: goatlang need not be able to parse them
+		lines = append(lines, core.Pick(r, []string{"func Gen[T any](x T) T { return x }", "var ch = make(chan int)", "func bg() { go bg() }", "type E int; func (e E) M() {}", "func named() (n int) { defer bg(); return }", "var arr [3]int", "import \"C\"", "}}} not go at all {{{", "var s = struct{ A int }{1}"}))
+	}
 	fv.Data = strings.Join(lines, "\n") + "\n"
 	fv.Marks = append(append([]string{}, tops...), inits...)
 	fv.TopN = len(tops)
